@@ -566,7 +566,7 @@ CircuitExec::StageRun CircuitExec::runStage(Circuit &c, int opIndex, const Op &o
   mk->phase = 1;
   allocLibraryMode(true);
   r.out = guarded([&] {
-    if (ps.byEffort && !cb) {
+    if (ps.byEffort && !cb && ps.ov.empty()) {  // the int overloads cannot carry overrides
       if (stage == 0) c.placeGlobal(ps.effort);
       else if (stage == 1) c.legalize(ps.effort);
       else c.placeDetailed(ps.effort);
